@@ -77,6 +77,10 @@ def _mk_fn(desc: list) -> Any:
     return f
 
 
+def uid_tail(uid: Any) -> str:
+    return str(uid).rsplit("-", 1)[-1] if uid else "x"
+
+
 def _make_handler(sim: Any, h: dict, calls: list) -> Any:
     async def handler(**kwargs: Any) -> Any:
         from ..sim import runner
@@ -87,6 +91,24 @@ def _make_handler(sim: Any, h: dict, calls: list) -> Any:
         rec = {"t": sim.now(), "id": h["id"], "kind": h["kind"], "uid": meta.get("uid"), "rv": meta.get("resourceVersion"),
                "retry": kwargs.get("retry"), "fns": h.get("fns") or []}
         calls.append(rec)
+        if h.get("tokens"):
+            # Every invocation accumulates content no other invocation has: two status fields (one before, one after
+            # an await) and one transformation that is NOT safe to call repeatedly (a list append).
+            key = (rec["uid"] or "", h["id"])
+            n = sim.obs.counters.get(("c08tok",) + key, 0)
+            sim.obs.counters[("c08tok",) + key] = n + 1
+            tok = f"{h['id']}#{uid_tail(rec['uid'])}#{n}"
+            p = kwargs["patch"]
+            rec.update({"n": n, "token": tok, "own_fields": {"status": {f"{h['id']}-a": tok + "a", f"{h['id']}-b": tok + "b"}},
+                        "own_fns": [["uappend", "log", tok]], "fns": []})
+            p.setdefault("status", {})[f"{h['id']}-a"] = tok + "a"
+            p.fns.append(_mk_fn(["uappend", "log", tok]))
+            if h.get("sleep"):
+                await asyncio.sleep(float(h["sleep"]))
+            p.setdefault("status", {})[f"{h['id']}-b"] = tok + "b"
+            rec["t_end"] = sim.now()
+            rec["outcome"] = "ok"
+            return None
         if h.get("sleep"):
             await asyncio.sleep(float(h["sleep"]))
         p = kwargs.get("patch")
@@ -205,7 +227,8 @@ def instrumented(sim: Any, pcalls: list, carried: list) -> Iterator[None]:
         call: dict[str, Any] = {"t": sim.now(), "name": name, "log": [], "ref": ref_raw,
                                 "fields": observe._jsonable(dict(patch)), "fns": [_fn_desc(f) for f in patch.fns],
                                 "server_before": {"clock": c.rv, "uids": c.uid_counter, "obj": c08.abs_obj(get(name))},
-                                "sub": "status" in resource.subresources, "from_body_kwarg": patch._original is None}
+                                "sub": "status" in resource.subresources, "from_body_kwarg": patch._original is None,
+                                "task": getattr(asyncio.current_task(), "get_name", lambda: "")()}
         pcalls.append(call)
         tok = _call_var.set(call)
         try:
@@ -279,7 +302,7 @@ def _finish_call(call: dict) -> dict:
            "fns": call["fns"], "outcome": call.get("outcome") or {"kind": "cancelled"},
            "server_before": call["server_before"], "server_after": call.get("server_after"), "final_raw": call.get("final_raw"),
            "orig_raw": ref, "orig": c08.abs_obj(ref) if ref and (ref.get("metadata") or {}).get("uid") else None,
-           "from_body_kwarg": call["from_body_kwarg"]}
+           "from_body_kwarg": call["from_body_kwarg"], "task": call.get("task")}
     reqs = []
     last_ok = None
     prev_state = (call["server_before"]["clock"], call["server_before"]["uids"])
@@ -415,7 +438,7 @@ def _t(x: float) -> float:
 
 
 def gen_scenario(rng: Any, i: int) -> dict:
-    kind = rng.choice(["reuse", "reuse", "reuse-daemon", "conflict", "conflict", "conflict-own", "mixed"])
+    kind = rng.choice(["reuse", "reuse", "reuse-daemon", "conflict", "conflict", "conflict-own", "mixed", "overlap", "overlap"])
     sc: dict[str, Any] = {"seed": i, "c08_kind": kind, "status_subresource": rng.random() < 0.5, "handlers": [],
                           "c08_handlers": [], "c08_slips": [], "faults": [], "timeline": [], "settings": {}}
     if rng.random() < 0.3:
@@ -482,6 +505,23 @@ def gen_scenario(rng: Any, i: int) -> dict:
         if rng.random() < 0.5:
             sc["timeline"].append([rng.choice([6.0, 8.0]), "edit", "a", {"metadata": {"labels": {"late": "1"}}}])
         sc["end"] = max(sc.get("end", 0.0), 16.0)
+    if kind == "overlap":
+        # several timers/daemons of one object, spawned in the same cycle, first invocations overlapping
+        ids = rng.sample(["ta", "tb", "dc", "td"], rng.choice([2, 2, 3]))
+        slow = rng.randrange(len(ids))
+        for n, hid in enumerate(ids):
+            hk = "daemon" if hid.startswith("d") and rng.random() < 0.7 else "timer"
+            sleep = rng.choice([0.25, 0.5, 1.0, 2 / 64]) if n == slow else rng.choice([0, 0, 1 / 64, 0.125])
+            h: dict[str, Any] = {"kind": hk, "id": hid, "tokens": True, "sleep": sleep, "opts": {}}
+            if hk == "timer":
+                h["opts"]["interval"] = rng.choice([3.0, 5.0, 50.0])
+            sc["c08_handlers"].append(h)
+        sc["timeline"].append([1.0, "create", "a", body])
+        if rng.random() < 0.4:
+            sc["timeline"].append([rng.choice([1.5, 2.5, 4.0]), "edit", "a", {"spec": {"x": 2}}])
+        if rng.random() < 0.25:
+            sc["c08_slips"].append({"kind": "jsonBody", "nth": rng.choice([2, 3]), "op": ["edit", {"metadata": {"labels": {"z": "1"}}}]})
+        sc["end"] = 12.0
     if kind == "conflict-own":
         # kopf's own finalizer transformations under conflicts
         sc["handlers"].append({"kind": "delete", "id": "del", "script": [rng.choice(["ok", ["temp", 1.0], ["sleep", 0.5, "ok"]])], "default": "ok"})
@@ -558,6 +598,98 @@ def oracle(ctx: Ctx, sc: dict, tr: dict) -> None:
                     ctx.count("closed_fn_effect", "applied-once")
 
 
+def _sig_inv(shape: str) -> dict:
+    return {"site": "daemons: per-invocation patch", "shape": shape}
+
+
+def _payload_values(x: Any) -> list:
+    if isinstance(x, dict):
+        return [v for y in x.values() for v in _payload_values(y)]
+    if isinstance(x, list):
+        return [v for y in x for v in _payload_values(y)]
+    return [x]
+
+
+def oracle_invocations(ctx: Ctx, sc: dict, tr: dict) -> None:
+    """From the property text, over the request log: what ONE daemon/timer invocation accumulated (its field
+    values, its transformation) is sent in exactly one accepted delivery — not before the invocation ended,
+    not together with another handler's content, not again later."""
+    invs = [hc for hc in tr["handler_calls"] if hc.get("token")]
+    if not invs:
+        return
+    rep = {"kind": "closed-loop", "scenario": sc}
+    by_tok = {hc["token"]: hc for hc in invs}
+    end_t = max((m["t"] for m in tr["marks"] if m["what"] == "end"), default=1e9)
+
+    def owners(strings: list) -> set:
+        out = set()
+        for v in strings:
+            if isinstance(v, str) and v[:-1] in by_tok and v[-1:] in ("a", "b"):
+                out.add(v[:-1])
+            elif isinstance(v, str) and v in by_tok:
+                out.add(v)
+        return out
+
+    sent: dict[str, list] = {}      # leaf value -> [(call, req)]
+    fn_calls: dict[str, list] = {}  # token -> calls whose patch held its transformation
+    for o in tr["patch_calls"]:
+        for r in o["reqs"]:
+            if not r["kind"].startswith("merge"):
+                continue
+            vals = [v for v in _payload_values(r["raw_payload"]) if isinstance(v, str)]
+            own = owners(vals)
+            if len({by_tok[t]["id"] for t in own}) > 1 or len(own) > 1:
+                ctx.oracle_fail(f"one request carries the content of several handler invocations {sorted(own)}: {r['raw_payload']}",
+                                rep, _sig_inv("content of several invocations in one request"))
+            for v in vals:
+                if owners([v]):
+                    sent.setdefault(v, []).append((o, r))
+        toks = [d[2] for d in o["fns"] if d[0] == "uappend" and d[2] in by_tok]
+        if len({by_tok[t]["id"] for t in toks}) > 1:
+            ctx.oracle_fail(f"one delivery carries the transformations of several handlers {toks}", rep,
+                            _sig_inv("transformations of several handlers in one delivery"))
+        for t in toks:
+            fn_calls.setdefault(t, []).append(o)
+    for hc in invs:
+        tok = hc["token"]
+        t_end = hc.get("t_end")
+        for suffix in ("a", "b"):
+            hits = sent.get(tok + suffix, [])
+            for o, r in hits:
+                if t_end is None or o["t"] < t_end:
+                    ctx.oracle_fail(f"field of invocation {tok} sent at t={o['t']} while the invocation ran until {t_end}", rep,
+                                    _sig_inv("content sent before its invocation ended"))
+            if len(hits) > 1:
+                ctx.oracle_fail(f"field value {tok + suffix} of one invocation was sent in {len(hits)} requests", rep,
+                                _sig_inv("content of one invocation sent more than once"))
+        for o in fn_calls.get(tok, []):
+            if t_end is None or o["t"] < t_end:
+                ctx.oracle_fail(f"transformation of invocation {tok} delivered at t={o['t']} while the invocation ran until {t_end}", rep,
+                                _sig_inv("content sent before its invocation ended"))
+        accepted = [o for o in fn_calls.get(tok, []) if o["outcome"].get("kind") == "ok" and o["outcome"].get("remaining") is None
+                    and o["reqs"] and all(r["code"] == 200 for r in o["reqs"])]
+        if len(accepted) > 1:
+            ctx.oracle_fail(f"transformation of invocation {tok} was part of {len(accepted)} accepted deliveries", rep,
+                            _sig_inv("transformation delivered more than once"))
+        final = next((ob for k, ob in tr["final_objects"].items() if "kopfexamples" in k and ob["metadata"]["uid"] == hc["uid"]), None)
+        if final is not None:
+            log = (final.get("status") or {}).get("log") or []
+            if log.count(tok) > 1:
+                ctx.oracle_fail(f"transformation of invocation {tok} took effect {log.count(tok)} times: {log}", rep,
+                                _sig_inv("transformation delivered more than once"))
+            quiet_for = end_t - (t_end if t_end is not None else end_t)
+            if t_end is not None and quiet_for >= 3.0 and not sc.get("faults") and not any(m["what"] in ("killed", "stopped") and not m.get("final") for m in tr["marks"]):
+                if not sent.get(tok + "a") or not sent.get(tok + "b") or (accepted and log.count(tok) != 1):
+                    ctx.oracle_fail(f"content of invocation {tok} (ended at {t_end}) never reached the server: fields sent {[len(sent.get(tok + x, [])) for x in 'ab']}, log {log}",
+                                    rep, _sig_inv("content of an invocation never delivered"))
+                else:
+                    ctx.count("closed_invocations", "delivered-once")
+            else:
+                ctx.count("closed_invocations", "late-or-faulted")
+        else:
+            ctx.count("closed_invocations", "object-gone")
+
+
 SIG_FIN = {"site": "processing.process_resource_causes",
            "shape": "eventual own-finalizer state differs from the decision on the final state"}
 
@@ -614,9 +746,38 @@ def oracle_own_finalizer(ctx: Ctx, sc: dict, tr: dict) -> None:
                 ctx.count("closed_own_finalizer", "present" if requires else "absent")
 
 
+def own_inputs(tr: dict) -> dict[int, tuple[dict, list]]:
+    """For deliveries of daemon/timer invocations that logged what they accumulated: the model's inputs
+    (`daemonRun`: this invocation's own fields and fns + what remained of the same runner's previous delivery),
+    keyed by the position of the call in `patch_calls`."""
+    invs: dict[tuple, list] = {}
+    for hc in tr["handler_calls"]:
+        if hc.get("token") and hc.get("t_end") is not None:
+            invs.setdefault((hc["uid"], hc["id"]), []).append(hc)
+    seen: dict[tuple, int] = {}
+    prev: dict[tuple, list] = {}
+    out: dict[int, tuple[dict, list]] = {}
+    for i, o in enumerate(tr["patch_calls"]):
+        task = o.get("task") or ""
+        if not task.startswith("runner of ") or o["orig"] is None:
+            continue
+        key = (o["orig_raw"]["metadata"]["uid"], task[len("runner of "):])
+        if key not in invs:
+            continue
+        n = seen.get(key, 0)
+        seen[key] = n + 1
+        if n < len(invs[key]):
+            hc = invs[key][n]
+            out[i] = (hc["own_fields"], list(prev.get(key) or []) + list(hc["own_fns"]))
+        rem = o["outcome"].get("remaining") if o["outcome"].get("kind") == "ok" else None
+        prev[key] = list(rem or [])
+    return out
+
+
 def model_requests(tr: dict) -> list[tuple[list, dict]]:
     out = []
-    for o in tr["patch_calls"]:
+    own = own_inputs(tr)
+    for idx, o in enumerate(tr["patch_calls"]):
         if o["outcome"]["kind"] == "cancelled" or o["orig"] is None or o["interleaved"]:
             continue
         if any(d[0] == "unknown" for d in o["fns"]) or any(not isinstance(r["code"], int) or r["code"] >= 500 for r in o["reqs"]):
@@ -629,7 +790,8 @@ def model_requests(tr: dict) -> list[tuple[list, dict]]:
         else:
             slips = {r["kind"]: r["slip"] for r in o["reqs"] if r["slip"] is not None}
         faults = {r["kind"]: r["fault"] for r in o["reqs"] if r["fault"]}
-        req = ["C08.patch", {"sub": o["sub"], "fields": o["fields"], "fns": o["fns"], "orig": o["orig"],
+        fields, fns = own.get(idx, (o["fields"], o["fns"]))
+        req = ["C08.patch", {"sub": o["sub"], "fields": fields, "fns": fns, "orig": o["orig"],
                              "server": o["server_before"], "slips": slips, "faults": faults}]
         out.append((req, o))
     return out
@@ -650,6 +812,7 @@ def evaluate(ctx: Ctx, scenarios: list[dict], tie: bool = True) -> None:
         ctx.traces += 1
         oracle(ctx, sc, tr)
         oracle_own_finalizer(ctx, sc, tr)
+        oracle_invocations(ctx, sc, tr)
         ctx.count("closed_scenarios", sc.get("c08_kind", "corpus"))
         landed = 0
         for o in tr["patch_calls"]:
